@@ -272,24 +272,65 @@ def check_variables(ctx):
 
 # ------------------------------------------------------------------ (c2) checkpoints
 
-def make_state(step, pid, base):
-    import jax.numpy as jnp
+OPTS = ["SGD", "SGD-momentum", "ADAM", "ADAMW"]
+
+
+def make_tx(opt):
+    """The optimisers scico/flax/train/state.py builds, driven by a learning-rate schedule."""
     import optax
+    sched = optax.exponential_decay(0.125, transition_steps=2, decay_rate=0.5)
+    if opt == "SGD":
+        return optax.sgd(learning_rate=sched)
+    if opt == "SGD-momentum":
+        return optax.sgd(learning_rate=sched, momentum=0.75, nesterov=True)
+    if opt == "ADAM":
+        return optax.adam(learning_rate=sched)
+    return optax.adamw(learning_rate=sched)
+
+
+def make_state(step, pid, base, opt="SGD-momentum"):
+    """A freshly created train state (no optimiser step taken)."""
+    import jax.numpy as jnp
     from scico.flax.train.state import TrainState
     params = {"dense": {"kernel": jnp.asarray(base["k"] + pid, jnp.float32), "bias": jnp.asarray(base["b"] * (pid + 1), jnp.float32)}}
     bs = {"bn": {"mean": jnp.asarray(base["m"] - pid, jnp.float32)}}
-    st = TrainState.create(apply_fn=None, params=params, tx=optax.sgd(0.1, momentum=0.9), batch_stats=bs)
+    st = TrainState.create(apply_fn=None, params=params, tx=make_tx(opt), batch_stats=bs)
     return st.replace(step=step)
+
+
+def dyadic_grads(r, like):
+    import jax
+    import jax.numpy as jnp
+    return jax.tree_util.tree_map(lambda a: jnp.asarray(r.randint(-8, 9, size=a.shape) / 8.0, a.dtype), like)
+
+
+def trained_states(c, base):
+    """States along one training run: before each save >= 1 optimiser steps are taken
+    (momentum trace / Adam moments / schedule and step counts all move), then the step label of
+    the case and new batch statistics are set."""
+    import jax.numpy as jnp
+    r = np.random.RandomState(c["seed"] + 1)
+    st = make_state(0, 0, base, c["opt"])
+    out = []
+    for i, s in enumerate(c["steps"]):
+        for _ in range(c["opt_steps"][i]):
+            st = st.apply_gradients(grads=dyadic_grads(r, st.params))
+        st = st.replace(step=s, batch_stats={"bn": {"mean": jnp.asarray(base["m"] - i, jnp.float32)}})
+        out.append(st)
+    return out
 
 
 def state_leaves(st):
     import jax
     return {"step": np.asarray(st.step), "params": jax.tree_util.tree_map(np.asarray, st.params),
             "batch_stats": jax.tree_util.tree_map(np.asarray, st.batch_stats),
+            "opt_struct": str(jax.tree_util.tree_structure(st.opt_state)),
             "opt": [np.asarray(t) for t in jax.tree_util.tree_leaves(st.opt_state)]}
 
 
 def states_equal(a, b):
+    """None iff the WHOLE training state agrees: step, params, batch_stats and every leaf of
+    opt_state (tree structure, dtype, shape, bits)."""
     la, lb = state_leaves(a), state_leaves(b)
     if int(la["step"]) != int(lb["step"]):
         return f"step {int(lb['step'])} instead of {int(la['step'])}"
@@ -297,31 +338,44 @@ def states_equal(a, b):
         d = trees_bit_equal(la[k], lb[k])
         if d:
             return f"{k}: {d}"
-    if len(la["opt"]) != len(lb["opt"]) or any(x.tobytes() != y.tobytes() for x, y in zip(la["opt"], lb["opt"])):
-        return "optimiser state differs"
+    if la["opt_struct"] != lb["opt_struct"] or len(la["opt"]) != len(lb["opt"]):
+        return "opt_state: tree structure differs"
+    for n, (x, y) in enumerate(zip(la["opt"], lb["opt"])):
+        if x.dtype != y.dtype or x.shape != y.shape or x.tobytes() != y.tobytes():
+            return f"opt_state: leaf {n} differs ({x.ravel()[:3].tolist()} vs {y.ravel()[:3].tolist()})"
     return None
 
 
 def run_ckpt_case(c, tag):
+    c = dict({"opt": "SGD-momentum", "opt_steps": [1] * len(c["steps"])}, **c)      # records of older runs
     from scico.flax.train.checkpoints import checkpoint_restore, checkpoint_save
     wd = SCR / "ckpt" / tag
     shutil.rmtree(wd, ignore_errors=True)
     r = np.random.RandomState(c["seed"])
     base = {"k": r.randint(-8, 9, size=(2, 3)) / 4.0, "b": r.randint(1, 9, size=(3,)) / 4.0, "m": r.randint(-8, 9, size=(2,)) / 4.0}
-    states = [make_state(s, i, base) for i, s in enumerate(c["steps"])]
-    conf = {"opt_type": "SGD", "batch_size": 2, "post_lst": [1, 2]}
+    states = trained_states(c, base)
+    conf = {"opt_type": c["opt"], "batch_size": 2, "post_lst": [1, 2]}
     for st in states:
         checkpoint_save(st, conf, str(wd) if c["str_path"] else wd)
     listing = sorted((int(p) for p in os.listdir(wd) if p.isdigit()), reverse=True)
-    template = make_state(0, 99, base)
+    template = make_state(0, 99, base, c["opt"])        # a FRESHLY created target: nothing of the saved run in it
     got = checkpoint_restore(template, str(wd) if c["str_path"] else wd, ok_no_ckpt=c["ok_no_ckpt"])
     pid = None
     for i, st in enumerate(states):
         if states_equal(st, got) is None:
             pid = i
     shutil.rmtree(wd, ignore_errors=True)
+    diff = states_equal(states[-1], got)
+    nxt = None
+    if diff is None or not diff.startswith(("step", "params", "batch_stats")):
+        # the next training step from the restored state equals the uninterrupted run
+        g = dyadic_grads(np.random.RandomState(c["seed"] + 2), states[-1].params)
+        try:
+            nxt = states_equal(states[-1].apply_gradients(grads=g), got.apply_gradients(grads=g))
+        except Exception as e:     # noqa: BLE001
+            nxt = f"apply_gradients on the restored state raises {type(e).__name__}"
     return {"listing": listing, "restored_step": int(got.step), "restored_id": pid,
-            "diff_vs_last": states_equal(states[-1], got)}
+            "diff_vs_last": diff, "next_step_diff": nxt}
 
 
 def check_checkpoints(ctx):
@@ -338,16 +392,19 @@ def check_checkpoints(ctx):
         if ctx.rng.random() < 0.2:
             steps[0] = 0 if k == 1 or steps[1] > 0 else steps[0]      # step 0 is a legal first step
         c = {"steps": steps, "seed": ctx.rng.randint(0, 10 ** 6), "str_path": ctx.rng.random() < 0.5,
-             "ok_no_ckpt": ctx.rng.random() < 0.5}
+             "ok_no_ckpt": ctx.rng.random() < 0.5, "opt": OPTS[i % 4],
+             "opt_steps": [ctx.rng.randint(1, 3) for _ in steps]}
         ctx.count(f"checkpoint-saves-{k}", c)
         try:
             o = run_ckpt_case(c, "c")
         except Exception as e:     # noqa: BLE001
             ctx.violation("checkpoint", "checkpoint_save / checkpoint_restore raises", c, observed=f"{type(e).__name__}: {e}"[:300])
             continue
-        if o["diff_vs_last"] is not None:
-            ctx.violation("checkpoint", "checkpoint_restore does not return the state of the most recent checkpoint bit-identically",
-                          c, expected=f"state saved at step {steps[-1]}", observed=o, oracle="C20_restore_latest")
+        if o["diff_vs_last"] is not None or o["next_step_diff"] is not None:
+            ctx.violation("checkpoint", "checkpoint_restore into a fresh target does not return the WHOLE state of the most recent "
+                          "checkpoint (step, params, batch_stats, every leaf of opt_state) / the next training step differs from "
+                          "the uninterrupted run", c, expected=f"state saved at step {steps[-1]}", observed=o,
+                          oracle="C20_restore_latest / C20_restore_full_state")
             continue
         vs = coq_list([f"({s}, {j})" for j, s in enumerate(steps)])
         items.append(f"({vs}, {nl(o['listing'])}, ({o['restored_step']}, {o['restored_id']}))")
@@ -661,7 +718,7 @@ def replay(ctx: Ctx, rec):
         return not o["params"] and not o["batch_stats"] and o["out_err"] is not None and o["out_err"] <= 1e-5
     if unit == "checkpoint" and "steps" in c:
         o = run_ckpt_case(c, "replay")
-        if o["diff_vs_last"] is not None:
+        if o["diff_vs_last"] is not None or o["next_step_diff"] is not None:
             return False
         vs = coq_list([f"({s}, {j})" for j, s in enumerate(c["steps"])])
         return eval_cases("C20_replay", "ckpt_case_ok", [f"({vs}, {nl(o['listing'])}, ({o['restored_step']}, {o['restored_id']}))"]) == []
